@@ -109,6 +109,9 @@ def facts(snap, F):
     F.try_add("sunosPid0AdNamed", "Bool", lambda: lean_bool(T.sunos_pid0_named(tree("_pssunos.py"))),
               "_pssunos._proc_basic_info: `raise AccessDenied(self.pid, self._name)` (true) or without the name (false) for an unreadable PID 0")
 
+    F.try_add("winMapsLoopGuarded", "Bool", lambda: lean_bool(T.win_maps_loop_guarded(tree("_pswindows.py"))),
+              "_pswindows.Process.memory_maps: every convert_dos_path() call of the per-mapping loop is inside the try whose `except OSError` raises convert_oserror(err, self.pid, self._name)")
+
     mt = {}
 
     def methods(ident):
